@@ -6,6 +6,10 @@ A case:
   {prefetch: p>=1, threads: [prog], sched: {kind:'random'|'pct', seed,...} | {kind:'replay', choices:[...]}}
   prog = {kind:'client', src:[v|'fail'], ret:r, batch:b}   the real CourierClient.async_iterate loop
        | {kind:'init', src:[...], ret:r}                   one RPC init_generator
+       | {kind:'client'|'init', build:'raise'|'noniter', [batch:b]}
+                                                           the same request with a lazy object that cannot be turned into a
+                                                           generator on the server: its constructor raises ValueError
+                                                           ('raise') or it builds a value that is not iterable ('noniter')
        | {kind:'next', batch:b}                            one RPC next_batch_from_generator
        | {kind:'stop', fatal:bool}                         one RPC stop_prefetch
        | {kind:'shutdown'}                                 one RPC shutdown
@@ -52,8 +56,22 @@ class Source:
 
 
 def make_source(tidx):
+  """what the lazy object of thread `tidx` evaluates to ON THE SERVER (inside `_init_iterator`)"""
   p = _CUR['threads'][tidx]
+  build = p.get('build', 'ok')
+  if build == 'raise':
+    raise ValueError(f'cannot construct the generator of request {tidx + 1}')
+  if build == 'noniter':
+    return 42
   return Source(_CUR['sched'], p['src'], p['ret'])
+
+
+def _rpc_error(e):
+  """canonical form of a non-OK status; a handler that raised (code 2) carries the kind of its exception"""
+  out = {'raise': 'rpc_error', 'code': e.code}
+  if e.code == 2:
+    out['cause'] = err_kind(e.__cause__) if e.__cause__ is not None else None
+  return out
 
 
 def canon_label(lbl):
@@ -168,7 +186,7 @@ def run_real(case, max_steps=12000):
         try:
           return 'ok', fut.result(timeout=30)
         except courier.StatusNotOk as e:
-          return 'rpc_error', e.code
+          return 'rpc_error', _rpc_error(e)
 
       def client(i, p):
         got = []
@@ -192,7 +210,7 @@ def run_real(case, max_steps=12000):
         except shim._Killed:   # pylint: disable=protected-access
           raise
         except courier.StatusNotOk as e:
-          out[i] = dict(yielded=got, outcome={'raise': 'rpc_error', 'code': e.code})
+          out[i] = dict(yielded=got, outcome=_rpc_error(e))
         except Exception as e:  # pylint: disable=broad-except
           out[i] = dict(yielded=got, outcome={'raise': err_kind(e)})
 
@@ -203,7 +221,7 @@ def run_real(case, max_steps=12000):
           v = lazy_fns.maybe_unpickle(v)
           out[i] = dict(outcome=None if v is None else _marker(v))
         else:
-          out[i] = dict(outcome={'raise': 'rpc_error', 'code': v})
+          out[i] = dict(outcome=v)
 
       def nxt(i, p):
         out[i] = dict(outcome=None, running=True)
@@ -211,17 +229,17 @@ def run_real(case, max_steps=12000):
         if st == 'ok':
           out[i] = dict(outcome=None, reply=_reply(pickler.loads(v)))
         else:
-          out[i] = dict(outcome={'raise': 'rpc_error', 'code': v})
+          out[i] = dict(outcome=v)
 
       def stop(i, p):
         out[i] = dict(outcome=None, running=True)
         st, v = rpc('stop_prefetch', *([True] if p.get('fatal') else []))
-        out[i] = dict(outcome=None if st == 'ok' else {'raise': 'rpc_error', 'code': v})
+        out[i] = dict(outcome=None if st == 'ok' else v)
 
       def shutdown(i, p):
         out[i] = dict(outcome=None, running=True)
         st, v = rpc('shutdown')
-        out[i] = dict(outcome=None if st == 'ok' else {'raise': 'rpc_error', 'code': v})
+        out[i] = dict(outcome=None if st == 'ok' else v)
 
       bodies = dict(client=client, init=init, next=nxt, stop=stop, shutdown=shutdown)
       for i, p in enumerate(case['threads']):
